@@ -163,6 +163,8 @@ def populate_script(cfg, recipe, blobdir, rnd):
             c += ['ea_set mid user.small v1', 'ea_set big user.medium %s' % ('m' * 200), 'ea_set d1 trusted.dirattr dv', 'ea_set small security.sel ctx']
             val = os.path.join(blobdir, 'eaval'); open(val, 'wb').write(b'E' * min(900, bs - 200))
             c += ['ea_set -f %s big user.blockval' % val]
+            # xattrs (too large for the inode body: they live in an EA block) on inodes that have no blocks of their own
+            c += ['ea_set fastlink user.onlink %s' % ('L' * 150), 'ea_set d1/chr user.ondev %s' % ('D' * 150), 'ea_set d1/fifo trusted.onfifo %s' % ('F' * 140)]
     if recipe.get('rm', True):
         c += ['write %s todel' % mid, 'rm todel', 'mkdir deldir', 'rmdir deldir']
     return c
@@ -186,10 +188,11 @@ def build_image(tools, img, cfg, recipe, blobdir, rnd, index_dirs=True):
 # 2 symlink of length a; 3 xattr (value length a) on a new file; 4 sparse file (hole of a blocks, then b bytes);
 # 5 extent files mixing written and unwritten extents that are logically and physically adjacent, in a needlessly deep tree (root split with the debugfs extent editor);
 # 6 split the extent-tree root of an existing template file (tree deeper than needed -> e2fsck offers to rebuild it);
+# 8 a file with several hundred single-block extents (two-level extent tree at 1k blocks)
 # 7 inode filler: use up (almost) all free inodes with directories and files spread over the groups, then free every third one and empty whole directory blocks;
 #   one time in three instead: fill the inode tables of groups 0..g exactly up to the last inode of group g
 NAME_PREFIX = ['', '', '', '.', '..', '..a', '...', '-', '~', '#', '\xc3\xa9', '\xff\xfe']
-NKINDS = 8
+NKINDS = 9
 def extras_script(ops, blobdir, bs):
     c = []
     for i, (kind, a, b) in enumerate(ops):
@@ -208,13 +211,23 @@ def extras_script(ops, blobdir, bs):
         elif kind == 2:
             c.append('symlink x%d %s' % (i, 't' * (1 + a % 1000)))
         elif kind == 3:
-            val = os.path.join(blobdir, 'xv%d' % (a % 3000)); open(val, 'wb').write(b'V' * (a % 3000))
+            # value length: anything up to 3000, or (one time in three) within 16 bytes of what exactly fills an EA block that holds this one attribute
+            vl = a % 3000
+            if b % 3 == 0: vl = max(0, bs - 32 - 16 - 4 - 4 - 16 + (a % 21))
+            val = os.path.join(blobdir, 'xv%d' % vl); open(val, 'wb').write(b'V' * vl)
             c += ['write /dev/null x%d' % i, 'ea_set -f %s x%d user.x%d' % (val, i, b % 7)]
         elif kind == 4:
             hole = 1 + a % 300; tail = 1 + b % 5000
             p = os.path.join(blobdir, 'sp-%d-%d' % (hole, tail))
             if not os.path.exists(p):
                 with open(p, 'wb') as f: f.seek(hole * bs); f.write(bytes([65 + (b % 20)]) * tail)
+            c.append('write %s x%d' % (p, i))
+        elif kind == 8:
+            # a file with 340-700 single-block extents (every other block written): at 1k blocks its extent tree is two levels deep
+            n = 340 + a % 360; p = os.path.join(blobdir, 'deepx-%d-%d' % (n, bs))
+            if not os.path.exists(p):
+                with open(p, 'wb') as f:
+                    for k in range(n): f.seek(2 * k * bs); f.write(bytes([(k * 7 + 3) & 0xff | 1]) * bs)
             c.append('write %s x%d' % (p, i))
         elif kind == 6:
             for nm in (['/frag', '/big', '/sparse'][a % 3],):
